@@ -1,5 +1,21 @@
+//! vh-parse: parser checks against the independent parser R2 (vh-r2).
+//!   C13  accept/reject and tree agreement
+//!   C14  source positions
+
+mod c13;
+mod c14;
+mod common;
+mod conv;
+mod mutate;
+
 fn main() {
     let id = std::env::args().nth(1).unwrap_or_default();
-    println!("INCONCLUSIVE property={id} reason=vh-parse has no check for this property yet");
-    std::process::exit(2);
+    match id.as_str() {
+        "C13" => c13::main(),
+        "C14" => c14::main(),
+        other => {
+            println!("INCONCLUSIVE property={other} reason=vh-parse has no check for this property");
+            std::process::exit(2);
+        }
+    }
 }
